@@ -64,7 +64,8 @@ func (obj *LongFloat) Simplify() any {
 func (obj *LongFloat) Equal(other Object) (eq bool) {
 	switch to := other.(type) {
 	case Fixnum:
-		eq = (*big.Float)(obj).Cmp(big.NewFloat(float64(to))) == 0
+		i, acc := (*big.Float)(obj).Int64()
+		eq = acc == big.Exact && i == int64(to)
 	case Octet:
 		eq = (*big.Float)(obj).Cmp(big.NewFloat(float64(to))) == 0
 	case SingleFloat:
